@@ -34,7 +34,7 @@ REQUIRED_REACH = ['validated:plain', 'validated:stream', 'validated:rendered', '
                   'validated:304', 'validated:redirect', 'validated:404', 'validated:405', 'validated:500', 'validated:debug-500',
                   'validated:debug-404', 'validated:meta', 'validated:gzip', 'validated:cache', 'validated:head', 'validated:post',
                   'files-opened', 'files-closed-after-close', 'wrapper-stacks:depth>=2', 'wrapper-stacks:embedded',
-                  'wrapper-stacks:no-routes', 'wrapper-stacks:siblings', 'wrapper-stacks:siblings-share-unique-type', 'reroute:raised', 'reroute:endpoint', 'reroute:relayed-verbatim', 'reroute:mode-rewrite', 'reroute:lazy-target', 'wrapper-stacks:subclass-type']
+                  'wrapper-stacks:no-routes', 'wrapper-stacks:siblings', 'wrapper-stacks:siblings-share-unique-type', 'reroute:raised', 'reroute:endpoint', 'reroute:relayed-verbatim', 'closed-before-first-chunk', 'reroute:mode-rewrite', 'reroute:lazy-target', 'reroute:target-uses-write', 'wrapper-stacks:subclass-type']
 NSHARDS = 8
 
 
@@ -128,6 +128,11 @@ class Scenario(object):
             Route('/only-get', lambda: Response('x'), methods=['GET']),
             Route('/boom', boom), Route('/err', err), Route('/form', form), Route('/cookie', cookie),
             Route('/empty', lambda: Response('')),
+            # short tuples with numbers in them are data like any other sequence
+            Route('/pair/<which>', lambda which: {'a': ('apples', 3), 'b': (3, 4), 'c': ('balance', -12), 'd': ('a', 7, None),
+                                                  'e': ('total', 2, [('x', 'y')]), 'f': (7, 200), 'g': ('gone', 404)}[which], render_basic),
+            # results that are callable without being responses: a forgotten pair of parentheses, a class instead of an instance
+            Route('/retfunc', lambda: boom), Route('/retclass', lambda: Response), Route('/retlambda', lambda: (lambda environ, start_response: [b'x'])),
             # HTTP errors with codes outside any registry and messages/details that are not header material
             Route('/custom/<which>', custom_error),
             Route('/bytes', lambda: Response(b'\x00\xff\x10', mimetype='application/octet-stream')),
@@ -176,6 +181,8 @@ REQUESTS = [
     ('405', 'POST', '/only-get', '', {}, b'', False), ('405', 'DELETE', '/only-get', '', {'Accept': 'application/xml'}, b'', False),
     ('500', 'GET', '/boom', '', {}, b'', False), ('500', 'GET', '/boom', '', {'Accept': 'text/html'}, b'', False),
     ('500', 'GET', '/err', '', {}, b'', False),
+    ('500', 'GET', '/retfunc', '', {}, b'', False), ('500', 'GET', '/retclass', '', {'Accept': 'text/html'}, b'', False),
+    ('500', 'POST', '/retlambda', '', {}, b'', False), ('debug-500', 'GET', '/retfunc', '', {'Accept': 'text/html'}, b'', True),
     ('debug-500', 'GET', '/boom', '', {'Accept': 'text/html'}, b'', True), ('debug-500', 'GET', '/boom', 'a=<b>', {}, b'', True),
     ('debug-404', 'GET', '/nothing/<x>', '', {'Accept': 'text/html'}, b'', True),
     ('meta', 'GET', '/meta/', '', {}, b'', False), ('meta', 'GET', '/meta/json/', '', {}, b'', False),
@@ -187,6 +194,9 @@ REQUESTS = [
     ('post', 'POST', '/form', '', {'Content-Type': 'application/x-www-form-urlencoded'}, b'a=1&b=%C3%A9', False),
     ('post', 'POST', '/plain', '', {'Content-Type': 'text/plain'}, b'ignored body', False),
     ('plain', 'GET', '/cookie', '', {}, b'', False), ('plain', 'GET', '/empty', '', {}, b'', False),
+    ('rendered', 'GET', '/pair/a', '', {}, b'', False), ('rendered', 'GET', '/pair/b', '', {'Accept': 'text/html'}, b'', False),
+    ('rendered', 'GET', '/pair/c', 'format=json', {}, b'', False), ('rendered', 'GET', '/pair/d', '', {}, b'', False),
+    ('rendered', 'POST', '/pair/e', '', {}, b'', False), ('rendered', 'GET', '/pair/f', '', {}, b'', False), ('rendered', 'GET', '/pair/g', '', {}, b'', False),
     ('custom-error', 'GET', '/custom/ascii', '', {}, b'', False), ('custom-error', 'GET', '/custom/cjk', '', {}, b'', False),
     ('custom-error', 'GET', '/custom/lines', 'how=return', {}, b'', False), ('custom-error', 'GET', '/custom/latin', '', {'Accept': 'text/html'}, b'', False),
     ('custom-error', 'GET', '/custom/std-cjk', '', {'Accept': 'application/json'}, b'', False), ('custom-error', 'POST', '/custom/ctl', 'how=return', {}, b'', False),
@@ -307,6 +317,31 @@ def judge_exchange(sh, sc, kind, method, path, query, headers, body, debug, reco
                 f.close()
             return
         sh.hit('files-closed-after-close', len(files))
+    # a server may close the iterable without ever asking for a chunk (client gone, HEAD): the file must be released all the same
+    if files and method in ('GET', 'HEAD'):
+        hdrs2 = dict(headers)
+        extra2 = {}
+        if hdrs2.pop('X-File-Wrapper', None):
+            from wsgiref.util import FileWrapper
+            extra2['wsgi.file_wrapper'] = FileWrapper
+        env2 = probe.make_environ(method, path, query, hdrs2, body, extra=extra2)
+        n0 = len(sc.opened)
+        try:
+            it = app(env2, lambda status, headers, exc_info=None: (lambda data: None))
+            if hasattr(it, 'close'):
+                it.close()
+            del it
+        except Exception as e:
+            sh.violation('C13/exception-escaped', '%s (closed before the first chunk): %s escaped' % (brief, probe.safe_repr(e)[:200]), case)
+            return
+        gc.collect()
+        still = [f.name for f in sc.opened[n0:] if not f.closed]
+        if still:
+            sh.violation('C13/file-left-open', '%s: the iterable was closed before its first chunk was asked for, %r is still open' % (brief, still), case)
+            for f in sc.opened[n0:]:
+                f.close()
+            return
+        sh.hit('closed-before-first-chunk')
     # the same request as HEAD must carry no body
     if method == 'GET' and kind not in ('304',):
         ex2, files2 = validated_exchange(sc, app, 'HEAD', path, query, headers, b'')
@@ -534,7 +569,18 @@ def judge_reroute(sh, rng):
         start_response(status, list(hdrs))
         for c in chunks:
             yield c
+    def writing_target(environ, start_response):
+        # PEP 3333's legacy interface: the body (or part of it) goes through the write() callable start_response returns
+        seen['environ'] = environ
+        seen['snapshot'] = dict(environ)
+        write = start_response(status, list(hdrs))
+        write(chunks[0])
+        write(chunks[1])
+        return iter(list(chunks[2:]))
     target = lazy_target if lazy else eager_target
+    if not lazy and rng.chance(0.3):
+        target = writing_target
+        sh.hit('reroute:target-uses-write')
     if lazy:
         sh.hit('reroute:lazy-target')
     mode = rng.pick(['redirect', 'redirect', 'rewrite', 'rewrite', 'strict'])
